@@ -27,7 +27,7 @@ typedef struct {
     int64_t length;        /* Current number of elements */
     int64_t capacity;      /* Allocated capacity */
     ElementType elem_type; /* Element type */
-    uint8_t elem_size;     /* Size of each element in bytes */
+    uint32_t elem_size;    /* Size of each element in bytes (a struct may be larger than 255 bytes) */
     void* data;            /* Element storage */
 } DynArray;
 
